@@ -1535,14 +1535,16 @@ func matchExactRegex(v string) ([]string, bool) {
 	}
 
 	start := re.Sub[0]
-	if !(start.Op == syntax.OpBeginLine || start.Op == syntax.OpBeginText) {
-		// Regex does not begin with ^
+	if start.Op != syntax.OpBeginText {
+		// Regex does not begin with ^ (a multi-line ^ also matches after a
+		// line break inside the value, so it is not an exact match).
 		return nil, false
 	}
 
 	end := re.Sub[len(re.Sub)-1]
-	if !(end.Op == syntax.OpEndLine || end.Op == syntax.OpEndText) {
-		// Regex does not end with $
+	if end.Op != syntax.OpEndText {
+		// Regex does not end with $ (a multi-line $ also matches before a
+		// line break inside the value, so it is not an exact match).
 		return nil, false
 	}
 
